@@ -13,13 +13,26 @@ REAL = ['onl.sim.resources.container.*', 'onl.sim.resources.store.*', 'onl.sim.r
 STUBS = ['producer/consumer and interrupter process bodies (harness)']
 ASSUMPTIONS = ['grants are observed as trigger records of the request events; the item of a granted get is read from '
                'the request event', 'items are unique, amounts are integers or dyadic so level arithmetic is exact']
-PROBES = ['head_cancelled_with_satisfiable_follower', 'container_hits_zero', 'container_hits_capacity', 'priority_tie',
+PROBES = ['packet_items_with_equal_ids', 'tiny_amounts', 'head_cancelled_with_satisfiable_follower', 'container_hits_zero', 'container_hits_capacity', 'priority_tie',
           'filter_matches_nothing', 'filter_overtakes', 'cancel', 'interrupt_while_waiting', 'boundary_with_pending',
           'store_full']
 
 
 def gen(rng, tier):
     return gen_store_case(rng, tier)
+
+
+def _match(spec, uid):
+    """The filter of a FilterStore get, evaluated on the recorded identity of an item."""
+    if spec is None or spec == 'any':
+        return True
+    if spec == 'none':
+        return False
+    if isinstance(spec, (list, tuple)):
+        return isinstance(uid, tuple) and len(uid) == 3 and uid[0] == 'PKT' and uid[2] == spec[1]
+    if isinstance(uid, tuple) and len(uid) == 3 and uid[0] == 'PKT':
+        return uid[1] == spec
+    return isinstance(uid, tuple) and len(uid) >= 1 and uid[0] == spec
 
 
 def _pkey(uid):
@@ -139,8 +152,7 @@ def check(w):
                     if sum(1 for x in items if _pkey(x) == m) > 1:
                         stats['priority_tie'] = 1
                 else:
-                    f = mk_filter(c['args'])
-                    first = next((x for x in items if f(x)), None)
+                    first = next((x for x in items if _match(c['args'], x)), None)
                     if first != got:
                         viol.append(('C07.3', 'filtered get %s (%r) received %r; first match in insertion order is %r' %
                                      (rid, c['args'], got, first)))
@@ -210,6 +222,10 @@ def check(w):
                     viol.append(('C07.5', 'clock about to advance from t=%r although the oldest pending get %s (%r) can '
                                  'be satisfied (level/items %r)' %
                                  (r[2], pg[0], created[pg[0]]['args'], level if kind == 'Container' else items)))
+    if any(isinstance(c['args'], tuple) and c['args'] and c['args'][0] == 'PKT' for c in created.values()):
+        stats['packet_items_with_equal_ids'] = 1
+    if kind == 'Container' and any(isinstance(c['args'], float) and c['args'] < 1e-6 for c in created.values()):
+        stats['tiny_amounts'] = 1
     return viol, stats, nontrivial
 
 
@@ -221,8 +237,7 @@ def _satisfiable(kind, c, level, items, cap):
     if c['kind'] == 'put':
         return len(items) < cap
     if kind == 'FilterStore':
-        f = mk_filter(c['args'])
-        return any(f(x) for x in items)
+        return any(_match(c['args'], x) for x in items)
     return len(items) > 0
 
 
